@@ -335,7 +335,7 @@ func (c *Conn) handleMail(arg string) {
 		return
 	}
 
-	p := parser{s: strings.TrimSpace(arg)}
+	p := parser{s: trimBlanks(arg)}
 	from, err := p.parseReversePath()
 	if err != nil {
 		c.writeResponse(501, EnhancedCode{5, 5, 2}, "Was expecting MAIL arg syntax of FROM:<address>")
@@ -693,7 +693,7 @@ func (c *Conn) handleRcpt(arg string) {
 		return
 	}
 
-	p := parser{s: strings.TrimSpace(arg)}
+	p := parser{s: trimBlanks(arg)}
 	recipient, err := p.parsePath()
 	if err != nil {
 		c.writeResponse(501, EnhancedCode{5, 5, 2}, "Was expecting RCPT arg syntax of TO:<address>")
